@@ -30,3 +30,10 @@ Contract(RD, 'RedirectTracker.is_repeat', S, ret=TOpt(TBool()), prop='C18',
          ensures=[('ref', 'truthy(result) == (self._response is not None and self._response.status_code in self._repeat_codes)')], raises={})
 Contract(RD, 'RedirectTracker.count', S, ret=TInt(), prop='C18', ensures=[('ref', 'result == self._num_redirects')], raises={})
 Contract(RD, 'RedirectTracker.exceeded', S, ret=TBool(), prop='C18', ensures=[('ref', 'result == (self._num_redirects > self._max_redirects)')], raises={})
+
+# the configured limit IS the limit: 0 ("follow no redirect") included -- the value is stored as given
+Contract(RD, 'RedirectTracker.__init__', dict(S, max_redirects=TInt(), codes=TList(TInt()), repeat_codes=TList(TInt())), prop='C18',
+         defaults={'max_redirects': 20}, requires=['max_redirects >= 0'],
+         modifies=['self._max_redirects', 'self._codes', 'self._repeat_codes', 'self._response', 'self._num_redirects'],
+         ensures=[('the-configured-limit-is-the-limit', 'self._max_redirects == max_redirects'), ('nothing-followed-yet', 'self._num_redirects == 0 and self._response is None')],
+         raises={}, note='codes / repeat_codes default to module constants (tuples of status codes); only that they are stored is used')
